@@ -705,7 +705,15 @@ func checkC14(c *Ctx, r *Report) {
 			lk, ok := ex.Tuple.(*ssa.Lookup)
 			return ok && isLoadOfField(protK)(strip2(lk.X))
 		}
-		r8.guard(f, "make a tag set", mks, "the peer has none", edgeBool(isMiss, false), nil)
+		isLooked := func(v ssa.Value) bool {
+			v = resolveLoad(strip2(v))
+			if ex, ok := v.(*ssa.Extract); ok && ex.Index == 0 {
+				v = ex.Tuple
+			}
+			lk, ok := v.(*ssa.Lookup)
+			return ok && isLoadOfField(protK)(strip2(lk.X))
+		}
+		r8.guard(f, "make a tag set", mks, "the peer has none", anyEdge(edgeBool(isMiss, false), edgeNil(isLooked, true)), nil)
 		for _, mk := range mks {
 			reg := func(in ssa.Instruction) bool {
 				mu, ok := in.(*ssa.MapUpdate)
@@ -753,10 +761,12 @@ func checkC14(c *Ctx, r *Report) {
 			a := callArgs(in.(ssa.CallInstruction))
 			return len(a) == 2 && isLoadOfField(protK)(strip2(a[0])) && isP(a[1], idP)
 		})
-		isEmpty := eqEdge(func(v ssa.Value) bool {
+		isLen := func(v ssa.Value) bool {
 			ci := isResultOfCall(v, 0, "builtin.len")
 			return ci != nil && isTagSet(ci.Common().Args[0])
-		}, func(v ssa.Value) bool { k, ok := constInt(v); return ok && k == 0 }, true)
+		}
+		isZero8 := func(v ssa.Value) bool { k, ok := constInt(v); return ok && k == 0 }
+		isEmpty := anyEdge(eqEdge(isLen, isZero8, true), edgeExcl(isLen, isZero8, ordGT))
 		r8.guard(f, "forget the peer", forget, "its tag set is empty", isEmpty, nil)
 		var fromE []CFGEdge
 		for _, b := range blocksDeep(f) {
